@@ -100,6 +100,7 @@ type Run struct {
 	funcsHit map[string]bool
 	autoAdv int
 	selectForks int
+	canon bool
 	pools map[*Value][]Value
 	kr    map[*Term]krInfo
 	allSchedules bool
